@@ -79,6 +79,12 @@ class Recorder:
     def MODE_GCM(self):
         return self.real_AES.MODE_GCM
 
+    def __getattr__(self, name):
+        # any other attribute of the real `AES` module (block_size, key_size, other modes …)
+        if name in ('real_AES', 'real_grb', 'draws', 'news', 'ops'):
+            raise AttributeError(name)
+        return getattr(self.real_AES, name)
+
     def new(self, *args, **kw):
         rec = {'args': args, 'kw': dict(kw), 'raised': None}
         self.news.append(rec)
